@@ -236,6 +236,10 @@ func (k c17) runLink(c *mon.Ctx) {
 				return
 			}
 		}
+		if cfg.Scripts[s].Kind != 0 && pe.PosChain[0].File != name {
+			c.Violate("link-error-position-wrong", fmt.Sprintf("%s is rejected for its own text, but its error starts in %q: %q\n%s\n%s", name, pe.PosChain[0].File, pe.Error(), cfg, srcDump(srcs)), info)
+			return
+		}
 		c.MaxOf("longest_link_error_chain", int64(len(pe.PosChain)))
 		if cfg.Scripts[s].Kind == 0 {
 			if d := k9.checkChain(cfg, names, calls, s, err); d != "" {
